@@ -1760,6 +1760,318 @@ def replay_history(case):
 
 
 # --------------------------------------------------------------------------------------------
+# 1d. confinement under history: the same TEXT again, on every ordered pair of entry points
+# --------------------------------------------------------------------------------------------
+# "For every expression string ... either a failure result or a value computed using only the allow-list": whether a
+# string is refused may not depend on what the process evaluated before.  Every confinement text (name-universe probe x
+# call shape x placement, forbidden-construct probe x root / depth-1 context, pathway-trick string) is evaluated as the
+# two-step sequence  a ; b  for EVERY ordered pair (a, b) of the six entry points (metabolize auto / math / logic /
+# tool / transform, digest_glucose; a == b included), with b on the SAME engine and on a SECOND engine of the process.
+# Freshness: every task (a, b, same|other, slice) runs in a child forked from the engine-free parent and contains every
+# text of its slice once: a on engine A, then IMMEDIATELY (a bounded cache must not have forgotten the text) b on A / B.
+# So the first evaluation is the first time the process sees the text ("text-fresh") and the second one has seen it
+# exactly once, while both engines carry a long history of other texts.  EVERY evaluation (both steps) is judged by
+# the normal confinement oracle of its text family; on top of that the differential clause: a text that entry point b
+# refuses when text-fresh must not be accepted after a.  Candidates are confirmed in further children (refusal by a
+# brand-new engine in a process new to the text; the isolated two-call sequence on new engines) before they are
+# reported, so that a refusal that merely depends on OTHER texts (ROS-like latches) is not blamed on a.
+H2_WHERE = ("same", "other")
+H2_SLICES = {"quick": 4, "thorough": 12}
+H2_NAME_HOLES_QUICK = (H, "[§]", "(1, §)", "bool(§)", "rec(§)")  # the root and the depth-1 placements
+H2_DESC = "Mitochondria(silent=True, tools=['rec'])"
+_H2: dict = {}  # state inherited by forked children: texts of the tier, engines of the task
+
+
+def h2_texts(tier):
+    """-> [record]; record[0] = family, record[1] = the text (unique).  quick is a subset of thorough.
+    ('trick', text, class) | ('probe', text, class, context kind, accept) | ('name', text, name, canon, shape, placement)"""
+    out = {}
+    for expr, cls in trick_strings():
+        out.setdefault(expr, ("trick", expr, cls))
+    ctx1 = contexts(1)
+    for cls, probe in PROBES:
+        for t, kind, acc in ctx1:
+            e = fill(t, probe)
+            out.setdefault(e, ("probe", e, cls, kind, acc))
+    if tier != "quick":  # depth-2 placements for the first probe of every forbidden class
+        seen = set()
+        ctx2 = contexts(2)
+        for cls, probe in PROBES:
+            if cls in seen:
+                continue
+            seen.add(cls)
+            for t, kind, acc in ctx2:
+                e = fill(t, probe)
+                out.setdefault(e, ("probe", e, cls, kind, acc))
+    names, fancy = name_universe()
+    holes = [t for t, _ in NAME_HOLES if tier != "quick" or t in H2_NAME_HOLES_QUICK]
+    for name in names + sorted(fancy):
+        canon = fancy.get(name, name)
+        for shape in SHAPES:
+            probe = name if shape is None else name + _argsrc(shape)
+            for template in holes:
+                e = place_name(template, probe)
+                out.setdefault(e, ("name", e, name, canon, shape, template))
+    return list(out.values())
+
+
+def _h2_lazy_texts(acc):
+    return {str(x) for a in acc for x in (a, bool(a))}
+
+
+def _h2_eval(rec, eng, entry):
+    """One evaluation of a history sequence, judged by the normal confinement oracle of the text's family.
+    -> (accepted, [(key, what)], outcome).  accepted = the engine did not refuse the text (a success result / a rendered
+    value, or a tool body ran)."""
+    expr = rec[1]
+    legacy = entry == "legacy"
+    pw = "math" if legacy else entry  # digest_glucose is documented as the math entry point
+    mods = len(sys.modules)
+    del _AUDIT_LOG[:]
+    _AUDIT_ON[0] = True
+    if _WD_HITS[0] >= WATCHDOG_MAX_HITS:
+        raise _Abandon()
+    signal.setitimer(signal.ITIMER_PROF, CALL_CPU_BUDGET)  # as call_entry (handler installed by _h2_setup)
+    try:
+        res, detail, value = call_legacy(eng, expr) if legacy else call(eng, expr, entry)
+    finally:
+        signal.setitimer(signal.ITIMER_PROF, 0)
+        _AUDIT_ON[0] = False
+    ran = bool(TOOL_CALLS)
+    if res in ("raise", "badtype"):
+        return False, judge_entry("any", None, expr, entry, res, detail, value, ran, {"rec"}, True, H2_DESC), \
+            (rec[0], entry, res, detail, ran)
+    ok = detail == "rendered" if legacy else res == "ok"
+    via = " [via digest_glucose]" if legacy else ""
+    out = []
+    if _AUDIT_LOG:
+        ev = sorted(set(_AUDIT_LOG))
+        out.append((f"audit-event:{ev[0].split('.')[0]}:{rec[3] if rec[0] == 'name' else rec[2]}",
+                    f"{entry}({short(expr)}) triggered audit events {ev[:6]}"))
+    if len(sys.modules) != mods:
+        out.append((f"module-imported:{rec[3] if rec[0] == 'name' else rec[2]}", f"{entry}({short(expr)}) grew sys.modules"))
+    if rec[0] == "trick":
+        if ok or ran:
+            out.append((f"forbidden-evaluated:trick-{rec[2]}:{pw}",
+                        f"{H2_DESC} {entry}({short(expr)}) {'succeeded with ' + short(value) if ok else 'ran a tool body'}; "
+                        f"the string contains a forbidden construct in a strict position (expected a failure result)"))
+    elif rec[0] == "probe":
+        _, _, cls, kind, acc = rec
+        if legacy and ok and kind in ("lazy", "kwarg") and value in _h2_lazy_texts(acc):
+            j = "lazy-skipped"
+        else:
+            j = judge_conf(cls, kind, acc, expr, pw, "rec", "ok" if ok else "fail", detail, value, ran)
+        if isinstance(j, tuple):
+            out.append((j[0], j[1] + via))
+    else:
+        _, _, name, canon, shape, template = rec
+        addressed = template.startswith("rec(") or (name == "rec" and shape is not None)
+        if ran and not (entry in ("auto", "tool") and addressed):
+            out.append((f"tool-ran-unaddressed:{entry}", f"tool body ran for {entry}({expr!r})"))
+        if legacy and not template.startswith("rec("):
+            hole_ok, hv = ok, NOVAL  # only the rendering is visible
+        else:
+            hole_ok, hv = hole_value(template, "ok" if ok else "fail", value)
+        j = judge_name(name, canon, shape, "ok" if hole_ok else "fail", hv, DOCUMENTED_PURE)
+        if j and j[0] != "unvetted":
+            out.append((j[0], j[1] + f" inside {expr!r} (entry point {entry}; expected a failure result)"))
+    return ok or ran, out, (rec[0], entry, "ok" if ok else "fail", type(value).__name__ if ok else "", ran)
+
+
+def _h2_setup():
+    install_audit()
+    dn = os.open(os.devnull, os.O_RDONLY)
+    os.dup2(dn, 0)  # a leaked input()/help() must not block on the terminal
+    sys.breakpointhook = lambda *a, **k: None
+    signal.signal(signal.SIGPROF, _on_sigprof)
+
+
+def _h2_seqdesc(a, b, where):
+    return f"{a} on engine A; then {b} on {'engine A' if where == 'same' else 'a second engine B'}"
+
+
+def h2_task(task):
+    """child of the engine-free parent: task = (a, b, where, slice, number of slices).  For every text of the slice, back to
+    back: a on engine A, then b on engine A ('same') / B ('other').  Every text occurs once, so its first evaluation is
+    the first time this process sees it.  -> {'n', 'acc1' / 'acc2': local indices accepted at step 1 / 2, 'viol', ...}"""
+    a, b, where, s, nslices = task
+    recs = _H2["texts"][s::nslices]
+    _h2_setup()
+    A, B = mk_engine("rec"), mk_engine("rec")
+    steps = ((A, a, "acc1", (a,), ""),
+             (A if where == "same" else B, b, "acc2", (a, b, where),
+              f" [second evaluation of the same text in this process: {_h2_seqdesc(a, b, where)}]"))
+    part = {"n": 0, "acc1": [], "acc2": [], "viol": {}, "outcomes": set(), "abandoned": 0}
+    try:
+        for li, rec in enumerate(recs):
+            for eng, entry, slot, seq, suffix in steps:
+                accepted, viols, outcome = _h2_eval(rec, eng, entry)
+                part["n"] += 1
+                part["outcomes"].add(outcome + (len(seq),))
+                if accepted:
+                    part[slot].append(li)
+                for key, what in viols:
+                    _add(part["viol"], key, what + suffix, {"sub": "hist2", "expr": rec[1], "seq": seq})
+    except _Abandon:
+        part["abandoned"] = 1
+    return part
+
+
+def _h2_confirm(arg):
+    """child: for each text NEW engines; a == None: the single engine-fresh evaluation b; else the isolated sequence
+    a on A ; b on A / a second engine.  -> indices (into the argument's list) of the texts that were accepted"""
+    a, b, where, recs = arg
+    _h2_setup()
+    acc = []
+    for i, rec in enumerate(recs):
+        A, B = mk_engine("rec"), mk_engine("rec")
+        if a is not None:
+            _h2_eval(rec, A, a)
+        if _h2_eval(rec, A if where == "same" else B, b)[0]:
+            acc.append(i)
+    return acc
+
+
+def run_hist2(ctx, nproc):
+    """-> coverage dict; reports violations.  Must run while the parent process has not evaluated anything."""
+    tier = ctx.tier
+    texts = h2_texts(tier)
+    nslices = H2_SLICES[tier]
+    _H2.clear()
+    _H2["texts"] = texts
+    tasks = [(a, b, w, s, nslices) for a in ENTRIES for b in ENTRIES for w in H2_WHERE for s in range(nslices)]
+    order = common.rotate(tasks, ctx.seed)
+    res = dict(zip([t[:4] for t in order], run_children(h2_task, order, 0, max(1, nproc))))
+    n_eval = 0
+    n_proc = len(tasks)
+    parts = []
+    fresh_all, fresh_any, later = {}, {}, []  # (entry, slice) -> accepted by every / by some text-fresh evaluation
+    for a, b, w, s, _ in tasks:
+        status, p = res[(a, b, w, s)]
+        if status != "done":
+            ctx.defer_harness_error(f"history-of-confinement task ({a}; {b} on {w} engine; slice {s}) did not finish: "
+                                    f"{status} {short(p, 200)}")
+            continue
+        acc1 = set(p["acc1"])
+        fresh_all[(a, s)] = fresh_all[(a, s)] & acc1 if (a, s) in fresh_all else acc1
+        fresh_any[(a, s)] = fresh_any.get((a, s), set()) | acc1
+        later.append((a, b, w, s, p["acc2"]))
+        p["evals"] = p["n"]
+        p["outcomes"] = [tuple(o) for o in p["outcomes"]]
+        parts.append(p)
+    abandoned = sum(p["abandoned"] for p in parts)
+    n_eval += _merge(ctx, "hist2", parts)
+    unstable = sum(len(fresh_any[k] - fresh_all[k]) for k in fresh_all)
+    # differential clause: refused when text-fresh, accepted as the second evaluation
+    cands = [(a, b, w, s, li) for a, b, w, s, acc in later if (b, s) in fresh_all
+             for li in sorted(set(acc) - fresh_all[(b, s)])]
+    rec_of = lambda s, li: texts[s + li * nslices]  # noqa: E731
+    confirmed_fresh_refusal, isolated = {}, {}
+    if cands:
+        by_b, by_seq = {}, {}
+        for a, b, w, s, li in cands:
+            by_b.setdefault(b, set()).add((s, li))
+            by_seq.setdefault((a, b, w), set()).add((s, li))
+        jobs = [(None, b, "same", sorted(by_b[b])) for b in sorted(by_b)] + \
+               [(a, b, w, sorted(by_seq[(a, b, w)])) for a, b, w in sorted(by_seq)]
+        args = [(a, b, w, [rec_of(*k) for k in keys]) for a, b, w, keys in jobs]
+        for (a, b, w, keys), (status, payload) in zip(jobs, run_children(_h2_confirm, args, 0, max(1, nproc))):
+            n_proc += 1
+            if status != "done":
+                ctx.defer_harness_error(f"history-of-confinement confirmation ({a}, {b}, {w}) did not finish: {status} "
+                                        f"{short(payload, 200)}")
+                continue
+            n_eval += len(keys) * (1 if a is None else 2)
+            accd = {keys[i] for i in payload}
+            for k in keys:
+                if a is None:
+                    confirmed_fresh_refusal[(b, k)] = k not in accd
+                else:
+                    isolated[(a, b, w, k)] = k in accd
+    groups = {}
+    n_legit = 0
+    for a, b, w, s, li in cands:
+        if not confirmed_fresh_refusal.get((b, (s, li))):
+            n_legit += 1  # an engine-fresh call accepts the text: the text-fresh refusal came from OTHER texts' history
+            continue
+        groups.setdefault((a, b, bool(isolated.get((a, b, w, (s, li))))), []).append((w, s, li))
+    for (a, b, iso) in sorted(groups):
+        g = sorted(groups[(a, b, iso)], key=lambda x: (repr(rec_of(x[1], x[2])[1]), x[0]))
+        scope = "process-wide" if any(w == "other" for w, _, _ in g) else "same-instance"
+        key = f"refused-fresh-accepted-after-history:{b}:after-{a}:{scope}" if iso else \
+            f"refused-fresh-accepted-after-history:{b}:after-{a}-and-other-texts"
+        w, s, li = g[0]
+        expr = rec_of(s, li)[1]
+        what = (f"{H2_DESC}: the text {short(expr)} is refused by {b} when the process has not seen it before (text-fresh, "
+                f"and on a brand-new engine), but is ACCEPTED in the sequence {_h2_seqdesc(a, b, w)}"
+                f"{'' if iso else ' (only with the history of the other texts of the slice on those engines)'}: "
+                f"whether the text is confined depends on what was evaluated before, so the accepted value was not computed "
+                f"from the string with the allow-list alone (expected a failure result; {len(g)} such text x engine "
+                f"placements for this pair of entry points, e.g. {[short(rec_of(x[1], x[2])[1], 30) for x in g[:4]]})")
+        case = {"sub": "hist2-diff", "expr": expr, "a": a, "b": b, "where": w} if iso else \
+            {"sub": "hist2-long", "tier": tier, "a": a, "slice": s, "li": li, "b": b, "where": w, "expr": expr}
+        for _ in g:
+            ctx.report(key, what, case)
+    if n_legit:
+        ctx.note(f"history of confinement: {n_legit} text-fresh refusals turned into acceptance later although an engine-fresh "
+                 f"call accepts the text (acceptance->refusal caused by other texts is not a confinement breach; not judged)")
+    ctx.stats["hist2.evaluations"] = n_eval
+    ctx.stats["hist2.candidates"] = len(cands)
+    return {"texts": len(texts), "entry_points": list(ENTRIES), "ordered_pairs": len(ENTRIES) ** 2,
+            "engine_placements_of_second_call": list(H2_WHERE), "sequences": len(texts) * len(ENTRIES) ** 2 * len(H2_WHERE),
+            "evaluations": n_eval, "fresh_processes": n_proc, "slices": nslices, "abandoned": abandoned,
+            "accepted_text_fresh": sum(len(v) for v in fresh_all.values()), "text_fresh_answers_unstable": unstable,
+            "refused_fresh_accepted_later_candidates": len(cands), "candidates_with_engine_fresh_acceptance": n_legit,
+            "name_placements": [t for t, _ in NAME_HOLES if tier != "quick" or t in H2_NAME_HOLES_QUICK],
+            "probe_context_depth": "1 (root + depth-1)" if tier == "quick" else "1 for every probe, 2 for the first probe per class"}
+
+
+def replay_hist2(case):
+    recs = {r[1]: r for r in h2_texts("thorough")}
+    rec = recs.get(case["expr"])
+    if rec is None:
+        raise common.HarnessError(f"history-of-confinement text not in the alphabet: {case['expr']!r}")
+    if case["sub"] == "hist2":  # a normal-oracle violation at some step of a sequence
+        seq = tuple(case["seq"])
+
+        def one(_):
+            _h2_setup()
+            A, B = mk_engine("rec"), mk_engine("rec")
+            v = _h2_eval(rec, A, seq[0])[1]
+            if len(seq) == 3:
+                v = _h2_eval(rec, A if seq[2] == "same" else B, seq[1])[1]
+            return [list(x) for x in v]
+        (status, payload), = run_children(one, [0], 0, 1)
+        if status != "done":
+            raise common.HarnessError(f"replay child did not finish: {status} {payload}")
+        return [tuple(x) for x in payload]
+    a, b, w = case["a"], case["b"], case["where"]
+    if case["sub"] == "hist2-diff":
+        (s1, p1), (s2, p2) = run_children(_h2_confirm, [(None, b, "same", [rec]), (a, b, w, [rec])], 0, 1)
+        if s1 != "done" or s2 != "done":
+            raise common.HarnessError(f"replay children did not finish: {s1} {s2}")
+        if not p1 and p2:
+            return [(f"refused-fresh-accepted-after-history:{b}:after-{a}",
+                     f"{short(case['expr'])} is refused by {b} on a brand-new engine in a fresh process and accepted in the "
+                     f"sequence {_h2_seqdesc(a, b, w)}")]
+        return []
+    # hist2-long: the engine-fresh refusal, then the whole task of the slice
+    nslices = H2_SLICES[case["tier"]]
+    _H2.clear()
+    _H2["texts"] = h2_texts(case["tier"])
+    (s1, p1), (s2, p2) = run_children(lambda j: (_h2_confirm if j[0] is None else h2_task)(j[1]),
+                                      [(None, (None, b, "same", [rec])), (1, (a, b, w, case["slice"], nslices))], 0, 1)
+    if s1 != "done" or s2 != "done":
+        raise common.HarnessError(f"replay children did not finish: {s1} {s2}")
+    if not p1 and case["li"] in p2["acc2"]:
+        return [(f"refused-fresh-accepted-after-history:{b}:after-{a}-and-other-texts",
+                 f"{short(case['expr'])} is refused by {b} on a brand-new engine and accepted in the sequence "
+                 f"{_h2_seqdesc(a, b, w)} when the engines have the history of the slice's other texts")]
+    return []
+
+
+# --------------------------------------------------------------------------------------------
+# --------------------------------------------------------------------------------------------
 # 3. resource bound
 # --------------------------------------------------------------------------------------------
 ENGINE_TIMEOUT = 0.5
@@ -2066,6 +2378,11 @@ def run(ctx):
         phases.append(f"{name}={time.time() - _t[0]:.1f}s")
         _t[0] = time.time()
 
+    # ---- 1d history of the confinement clause: first, while this process has not evaluated any expression
+    hist2_cov = run_hist2(ctx, nproc)
+    total += hist2_cov["evaluations"]
+    ctx.sample({"sub": "hist2-diff", "expr": "[true]", "a": "logic", "b": "math", "where": "other"})
+    lap("history-of-confinement")
     # ---- 1a confinement: node classes
     found, forbidden, unprobed = node_class_table()
     ctxs = contexts(depth)
@@ -2249,7 +2566,7 @@ def run(ctx):
              "strings (per probe for confinement), all of which contain a forbidden construct, an unknown name, a "
              "hostile feature or a size-like operand; states/transitions are the ROS-latch history search "
              "(canonical state = (ros level, latched))",
-        exhaustive=not unprobed and not abandoned,  # every stated finite space (strings below; ROS histories up to ros_depth) is enumerated completely
+        exhaustive=not unprobed and not abandoned and not hist2_cov["abandoned"],  # every stated finite space (strings below; ROS histories up to ros_depth) is enumerated completely
         ros_history_depth=ros_depth,
         context_depth=depth,
         contexts=len(ctxs),
@@ -2294,6 +2611,7 @@ def run(ctx):
         history_prefixes=len(prefixes),
         history_prefix_depth=2,
         history_cases=len(HISTORY_CASES),
+        history_of_confinement=hist2_cov,
         resource_deadline_cpu_s=DEADLINE_S,
         resource_engine_timeout_s=ENGINE_TIMEOUT,
         resource_as_limit_bytes=AS_LIMIT,
@@ -2366,6 +2684,8 @@ def replay(ctx, case):
         return replay_answers(case)
     if sub == "history":
         return replay_history(case)
+    if sub in ("hist2", "hist2-diff", "hist2-long"):
+        return replay_hist2(case)
     if "root" in case:
         from mc import explore
         return explore.replay_case(RosModel(), {"root": list(case["root"]), "hist": [list(o) for o in case["hist"]],
